@@ -2211,6 +2211,7 @@ class Mailbox:
         fetch_ops: list[FetchAtt],
         uid_cmd: bool = False,
         timeout_cm: asyncio.Timeout | None = None,
+        read_only: bool = False,
     ) -> AsyncIterator[tuple[int, list[bytes]]]:
         """
         Go through the messages in the mailbox. For the messages that are
@@ -2237,6 +2238,8 @@ class Mailbox:
         - `fetch_ops`: The things to fetch for the messags indiated in
           msg_set
         - `uid_cmd`: whether or not this is a UID command.
+        - `read_only`: the client has the mailbox selected read-only
+          (EXAMINE): the fetch must not change any flag (Seen, Recent)
         """
 
         if not self.msg_keys:
@@ -2318,9 +2321,11 @@ class Mailbox:
                     # these operations can potentially change the flags of
                     # the message.
                     #
-                    if elt.attribute == "body" and elt.peek is False:
+                    if read_only:
+                        pass
+                    elif elt.attribute == "body" and elt.peek is False:
                         fetched_body_seen = True
-                    if elt.attribute == "flags":
+                    elif elt.attribute == "flags":
                         fetched_flags = True
 
                     # Since each fetch op is asyncio blocking, release some
